@@ -137,14 +137,26 @@ func isIEI(m *bind.Msg, v int, half bool) bool {
 // mandatory part: every mandatory slot at its minimum length with counting content, header slots
 // carrying the right discriminator and message type; override replaces one slot's rendering.
 func renderMandatory(m *bind.Msg, override int, ot tok) []byte {
+	if override < 0 {
+		return renderMandatoryMulti(m, nil)
+	}
+	return renderMandatoryMulti(m, map[int]tok{override: ot})
+}
+
+// renderMandatoryMulti renders the mandatory part with several slots overridden.
+func renderMandatoryMulti(m *bind.Msg, ov map[int]tok) []byte {
 	var out []byte
 	for i := range m.Slots {
 		s := &m.Slots[i]
 		if s.Optional {
 			continue
 		}
-		if i == override {
-			out = append(out, renderBody(m, s, ot)...)
+		if ot, ok := ov[i]; ok {
+			if ot.Pat >= 1000 { // literal single-octet value
+				out = append(out, byte(ot.Pat-1000))
+			} else {
+				out = append(out, renderBody(m, s, ot)...)
+			}
 			continue
 		}
 		switch {
@@ -383,6 +395,59 @@ func (x *codecExplorer) explore() {
 				}
 			}
 		}
+		// pairs of independent features: every value class of a mandatory one-octet slot (all 16 low nibbles x two high
+		// nibbles) together with a large length of every element with a two-octet length field
+		for i := range m.Slots {
+			si := &m.Slots[i]
+			if si.Optional || si.LenSize != 0 || si.Max != 1 || si.Name == "ExtendedProtocolDiscriminator" || (isMsgIdentity(si.Name) && m.MsgType >= 0) {
+				continue
+			}
+			for j := range m.Slots {
+				sj := &m.Slots[j]
+				if sj.LenSize != 2 || sj.Half {
+					continue
+				}
+				if !x.mine() {
+					continue
+				}
+				if !x.c.Begin("state", m.Name, map[string]any{"msg": m.Name, "pair_family": si.Name + " x " + sj.Name}) {
+					continue
+				}
+				mid := (sj.Min + sj.Max) / 2
+				lens := []int{mid}
+				if mid > 3000 {
+					lens = []int{3000}
+				}
+				if thorough {
+					lens = []int{sj.Min + 1, mid, sj.Max}
+					if mid > 3000 {
+						lens = append(lens, 3000)
+					}
+				}
+				for _, l := range lens {
+					if l > sj.Max {
+						continue
+					}
+					for hi := 0; hi < 2; hi++ {
+						for lo := 0; lo < 16; lo++ {
+							v := hi*0xF0 | lo
+							ov := map[int]tok{i: {Pat: 1000 + v}}
+							var full []byte
+							if sj.Optional {
+								full = append(renderMandatoryMulti(m, ov), renderTok(m, tok{Slot: j, L: l})...)
+							} else {
+								ov[j] = tok{Slot: j, L: l}
+								full = renderMandatoryMulti(m, ov)
+							}
+							x.states++
+							x.trans++
+							x.run1(m, full)
+						}
+					}
+				}
+				x.c.Tick()
+			}
+		}
 		// duplicates of one variable-length element with different lengths, followed by a third token
 		// (state carried from the first occurrence into the second must not leak)
 		for i := range m.Slots {
@@ -432,6 +497,15 @@ func (x *codecExplorer) explore() {
 		// depth 1: full token alphabet
 		full1 := optTokens(m, true)
 		min1 := optTokens(m, false)
+		// second-token alphabet of the quick tier: minimal tokens plus a "minimum + 2" variant of every variable-length
+		// element, so that a truncation with some content present exists at depth 2
+		min2 := append([]tok{}, min1...)
+		for i := range m.Slots {
+			sl := &m.Slots[i]
+			if sl.Optional && !sl.Half && sl.LenSize > 0 && sl.Min+2 <= sl.Max {
+				min2 = append(min2, tok{Slot: i, L: sl.Min + 2, Pat: 1})
+			}
+		}
 		for _, t1 := range full1 {
 			if !x.mine() {
 				continue
@@ -447,12 +521,15 @@ func (x *codecExplorer) explore() {
 				x.maxDepth = 1
 			}
 			// depth 2: second token from the minimal alphabet (quick) or the full alphabet (thorough)
-			second := min1
+			second := min2
 			if thorough {
 				second = full1
 			}
 			if t1.Avail != 0 {
 				continue // nothing meaningful follows a truncated element except through the prefix sweep
+			}
+			if thorough && t1.Slot >= 0 && t1.L > 600 {
+				second = min2 // a huge first element is followed by the reduced alphabet (the huge lengths are covered at depth 1 and in the length sweep)
 			}
 			for _, t2 := range second {
 				x.states++
